@@ -19,7 +19,7 @@ def event_bus(run, replay, thorough):
         run.tlc("EventBus.tla", "mc_bus.cfg", workers=4, timeout=900,
                 cfg_text=EB.format(subs='{"s1","s2"}', steps=7 if thorough else 6, body="VIEW view\nINVARIANTS Fifo\nPROPERTIES NothingAfterClose ExactFanOut"), label="MC_EventBus")
         src = os.path.join(run.tmp, "bus.ndjson")
-        run.tlc("EventBus_gen.tla", "gen_bus.cfg", mode="simulate", workers=1, sim="num=%d" % (3000 if thorough else 400), extra=["-depth", "8"], timeout=600,
+        run.tlc("EventBus_gen.tla", "gen_bus.cfg", mode="simulate", workers=1, sim="num=%d" % (6000 if thorough else 1200), extra=["-depth", "8"], timeout=600,
                 env={"VERIF_OUT": src}, cfg_text=EB.format(subs='{"s1","s2","s3"}', steps=8, body="ACTION_CONSTRAINT ExportLeaves"), label="GEN_EventBus")
         if not os.path.exists(src):
             raise vlib.Infra("no event-bus behaviours exported")
